@@ -244,8 +244,11 @@ func (r *vC17Run) value(v vC17Val) []byte {
 	default:
 		rng.Read(b)
 	}
-	if n >= 4 { // distinct values
+	// values of one behaviour are told apart by their bytes
+	if n >= 4 {
 		copy(b, []byte(fmt.Sprintf("%03d:", v.ID%1000)))
+	} else if n >= 1 {
+		b[0] = byte(v.ID)
 	}
 	r.vals[v.ID] = b
 	r.order = append(r.order, v.ID)
